@@ -874,6 +874,29 @@ clr_poss(bitint383_t *restrict cand, const bitint383_t *poss)
 	return;
 }
 
+static bool
+pos_sel_p(const bitint383_t *poss, size_t idx, size_t n)
+{
+/* is the IDX-th (1-based) of N instants of a period selected by POSS */
+	int pos;
+
+	for (bitint_iter_t i = 0UL; (pos = bi383_next(&i, poss), i);) {
+		if (pos > 0 ? (size_t)pos == idx : n + 1U == idx + (size_t)-pos) {
+			return true;
+		}
+	}
+	return false;
+}
+
+static size_t
+cnt_cand(const bitint383_t *cand)
+{
+	size_t n = 0U;
+
+	for (bitint_iter_t i = 0UL; (bi383_next(&i, cand), i); n++);
+	return n;
+}
+
 static void
 shift(bitint383_t cand[static 3U], const unsigned int y, echs_shift_t sh)
 {
@@ -1020,6 +1043,7 @@ rrul_fill_yly(echs_instant_t *restrict tgt, size_t nti, rrulsp_t rr)
 	size_t nd;
 	size_t res = 0UL;
 	size_t tries;
+	size_t npos = 0U, ipos = 0U;
 	uint8_t wd_mask = 0U;
 	bool ymdp;
 	struct enum_s e;
@@ -1150,8 +1174,15 @@ rrul_fill_yly(echs_instant_t *restrict tgt, size_t nti, rrulsp_t rr)
 			fill_yly_ymd(cand, srcsca, y, m, nm, d, nd, wd_mask);
 		}
 
-		/* limit by setpos */
-		clr_poss(cand, &rr->pos);
+		/* limit by setpos, positions count instants, so when there's
+		 * more than one time of the day select while enumerating */
+		if (e.nS * e.nM * e.nH > 1U && bi383_has_bits_p(&rr->pos)) {
+			npos = cnt_cand(cand) * e.nS * e.nM * e.nH;
+			ipos = 0U;
+		} else {
+			npos = 0U;
+			clr_poss(cand, &rr->pos);
+		}
 
 		/* do the shifts */
 		shift(cand, y, rr->shift);
@@ -1173,6 +1204,9 @@ rrul_fill_yly(echs_instant_t *restrict tgt, size_t nti, rrulsp_t rr)
 						.ms = proto.ms,
 					};
 
+					if (npos && !pos_sel_p(&rr->pos, ++ipos, npos)) {
+						continue;
+					}
 					if (UNLIKELY(echs_instant_lt_p(until, x))) {
 						goto fin;
 					}
@@ -1214,6 +1248,7 @@ rrul_fill_mly(echs_instant_t *restrict tgt, size_t nti, rrulsp_t rr)
 	size_t nd;
 	size_t res = 0UL;
 	size_t tries;
+	size_t npos = 0U, ipos = 0U;
 	uint8_t wd_mask = 0U;
 	bool ymdp;
 	struct enum_s e;
@@ -1365,8 +1400,15 @@ rrul_fill_mly(echs_instant_t *restrict tgt, size_t nti, rrulsp_t rr)
 			fill_mly_ymd(cand, srcsca, y, m, d, nd, wd_mask);
 		}
 
-		/* limit by setpos */
-		clr_poss(cand, &rr->pos);
+		/* limit by setpos, positions count instants, so when there's
+		 * more than one time of the day select while enumerating */
+		if (e.nS * e.nM * e.nH > 1U && bi383_has_bits_p(&rr->pos)) {
+			npos = cnt_cand(cand) * e.nS * e.nM * e.nH;
+			ipos = 0U;
+		} else {
+			npos = 0U;
+			clr_poss(cand, &rr->pos);
+		}
 
 		/* do the shifts */
 		shift(cand, y, rr->shift);
@@ -1388,6 +1430,9 @@ rrul_fill_mly(echs_instant_t *restrict tgt, size_t nti, rrulsp_t rr)
 						.ms = proto.ms,
 					};
 
+					if (npos && !pos_sel_p(&rr->pos, ++ipos, npos)) {
+						continue;
+					}
 					if (UNLIKELY(echs_instant_lt_p(until, x))) {
 						goto fin;
 					}
